@@ -404,6 +404,8 @@ func genCase(t *rapid.T) *Case {
 				rs.Behav.Dup = true
 			case 5:
 				rs.Behav.Async, rs.Behav.Dup = true, true
+			case 6:
+				rs.Behav.DupRace = true
 			}
 			if rapid.IntRange(0, 2).Draw(t, "hold") == 0 {
 				rs.Behav.Hold = true
